@@ -7,6 +7,7 @@ import Ptn.C08.SwapValue
 import Ptn.C08.StepValue
 import Ptn.C08.LoopValue
 import Ptn.C08.GlobalValue
+import Ptn.C08.StepGlobal
 /-! Property theorems for C08 (a TEBD step is the ordered product of its Trotter gates and SWAPs).
 Only property theorems and non-vacuity examples live here; helper lemmas are in `Lemmas.lean`
 (splitting, SWAP), `LegLemmas.lean` and `Stages.lean` (leg bookkeeping).
@@ -648,6 +649,104 @@ example : PairOK 1 2 (some 0) [5] [6] [7] ∧
       [(VLeg.own 1 (.nb 2), VLeg.own 2 (.nb 1)), (.shared (.phys 1 0), .shared (.gin 0)),
        (VLeg.own 2 (.nb 7), VLeg.own 1 (.nb 5))] := by
   refine ⟨by unfold PairOK; decide, by decide⟩
+
+/-! ### (x) value level in ONE label space: a whole time step
+
+`tebd_step_loop_value` takes a `LoopChain`, whose two-site contract speaks about arbitrary tensors `T₁`, `T₂` and
+bond legs in the step labels `SLeg` and about the pairs `recPairs (specOp …)`, not about the model's program.
+With the injection `stepGlob cur g p c K ver : Leg → SLeg` (open leg of site `n` ↦ the CURRENT physical leg
+`ph (cur n)`, gate output `k` ↦ `ph (out g k)`, gate input `k` ↦ `gin g k`, virtual legs ↦ `virt`; injective by
+the record invariant `RecInv`) every contract of the chain is a statement about the value of THE MODEL'S OWN
+PROGRAM for that operator, renamed into the step labels (`GlobalLoopContract`, `StepGlobal.lean`). -/
+
+open Ptn.Ein in
+/-- **One TEBD time step, value level, one label space, only exact splits assumed.**  As `tebd_step_loop_value`,
+but the chain of networks is a `GlobalLoopChain`: for operator number `g` with current physical legs `cur`
+
+* (one site `s`) the new node tensor IS the value of the renamed program `tensordot(T, G, binds)` of
+  `singleSite` (`gateExpr1 … binds`, `binds` = what the model function returns) - no hypothesis about a routine;
+* (two sites, either naming order of a pair `PairOK`) the old node tensors are the pulled leaves `TP'`, `TC'` of the
+  renamed program `E = tensordot(tensordot(P, C, bond), G, r.binds)` of `twoSite`, the gate tensor `G g` is its
+  pulled gate leaf, and the ONLY hypothesis about a library routine is the exact factorisation of THE VALUE OF
+  THIS PROGRAM over the new bond, `(E.rn_map stepGlob).eval dim τ = Σ_newbond U·V` (contract of `split_node_svd`,
+  truncation disabled);
+
+that the renamed pairs of the model are the pairs the specification fold prescribes at that moment
+(`rn_pairs stepGlob r.binds = recPairs (specOp g (cur, []) 0 [x, y]).2`) is PROVED (`two_binds_spec`), as is the
+injectivity of `stepGlob` along the whole run (the invariant `RecInv` is carried through the chain).  Then the state
+vector after the step is the ordered product of the gates applied to the state vector before. -/
+theorem tebd_step_loop_value_global {R : Type} [CommSemiring R] (t : List TNode) (hwf : TreeWF t)
+    (ops : List (List Nat)) (hv : ∀ op ∈ ops, ValidOp t op) (cur : Nat → GLeg) (rc : List Rec) (g : Nat)
+    (hinv : RecInv cur rc g) :
+    ∃ t' rec', runOps ⟨t, cur, rc⟩ g ops = some ⟨t', (specRun (cur, rc) g ops).1, rec'⟩ ∧
+      ∀ (dim : SLeg → Nat) (G : Nat → Asg SLeg → R), (∀ i, DependsOn (GateReadsS i) (G i)) →
+        (∀ (leaves : List (Asg SLeg → R)) (σ : Asg SLeg),
+          netValue dim (recPairs rec') (gateLeaves G g ops leaves) σ =
+            actRun dim G cur g ops (netValue dim (recPairs rc) leaves) σ) ∧
+        (∀ ψ ψ' : Asg SLeg → R, GlobalLoopChain dim G cur g ops ψ ψ' → ψ' = actRun dim G cur g ops ψ) := by
+  obtain ⟨t', rec', h1, h2⟩ := tebd_step_value (R := R) t hwf ops hv cur rc g hinv
+  exact ⟨t', rec', h1, fun dim G hG => ⟨(h2 dim G hG).1, fun ψ ψ' h => global_loop_chain_value hG hinv h⟩⟩
+
+open Ptn.Ein in
+/-- **One operator inside the step, one label space** (the single-site and the two-site analogue at once): under
+the record invariant, a `GlobalLoopContract` for operator number `g` has one of the three accepted shapes, and the
+network after it is the gate action `Σ_in G[out; in] · ψ[…, in, …]` over the pairs of the specification. -/
+theorem tebd_op_loop_value_global {R : Type} [CommSemiring R] (dim : SLeg → Nat) (cur : Nat → GLeg)
+    (rc : List Rec) (g : Nat) (hinv : RecInv cur rc g) (Gt : Asg SLeg → R) (hG : DependsOn (GateReadsS g) Gt)
+    (op : List Nat) (ψ ψ' : Asg SLeg → R) (h : GlobalLoopContract dim cur g Gt op ψ ψ') :
+    OpForm op ∧ ψ' = gateAct dim Gt cur g op ψ :=
+  ⟨(h.toLoop hinv hG).1, (h.toLoop hinv hG).2.toOp.value⟩
+
+open Ptn.Ein in
+/-- the injection is injective at every moment of a run (hypothesis of the relabelling theorems) -/
+example (cur : Nat → GLeg) (rc : List Rec) (g : Nat) (hinv : RecInv cur rc g) (p c : Nat) (K : List Nat)
+    (ver : Nat → Nat → Nat) : Function.Injective (stepGlob cur g p c K ver) :=
+  hinv.stepGlob_injective p c K ver
+
+open Ptn.Ein in
+/-- non-vacuity of `hGt`: every gate tensor reading only the legs of gate `g` is the pull of a local gate tensor -/
+example {R : Type} (cur : Nat → GLeg) (g p c : Nat) (K : List Nat) (ver : Nat → Nat → Nat)
+    (Gt : Asg SLeg → R) (hG : DependsOn (GateReadsS g) Gt) :
+    ∃ G : Asg Leg → R, Gt = rn_pull (stepGlob cur g p c K ver) G :=
+  stepGlob_gate_surj cur g p c K ver Gt hG
+
+open Ptn.Ein in
+/-- non-vacuity of the exact-split hypothesis `hUV`: at every moment of a run, for EVERY local program and a new
+bond `virt a b (v + 3)`, `virt b a (v + 3)` of dimension one (old bonds carry version `v`) the value of the renamed
+program factorises exactly -/
+example {R : Type} [CommSemiring R] (cur : Nat → GLeg) (rc : List Rec) (g : Nat) (hinv : RecInv cur rc g)
+    (p c : Nat) (K : List Nat) (v a b : Nat) (e : Expr Leg R) (dim : SLeg → Nat)
+    (hd : dim (SLeg.virt a b (v + 3)) = 1) :
+    ∃ U V : Asg SLeg → R, ∀ τ, (e.rn_map (stepGlob cur g p c K (fun _ _ => v))).eval dim τ =
+      sumPairs dim [(SLeg.virt a b (v + 3), SLeg.virt b a (v + 3))] (fun ρ => U ρ * V ρ) τ :=
+  rn_split_exists_step _ (hinv.stepGlob_injective p c K _) e dim _ _
+    (stepGlob_ne_newbond cur g p c K a b v) (stepGlob_ne_newbond cur g p c K b a v) hd
+
+open Ptn.Ein in
+/-- concrete renaming at the start of a run (gate `0`, pair `0 — 1`): the pairs of the model in the step labels -/
+example : rn_pairs (stepGlob GLeg.init 0 0 1 [] (fun _ _ => 0))
+      [(Leg.nb 1, Leg.nb 0), (Leg.phys 0 0, Leg.gin 0), (Leg.phys 1 0, Leg.gin 1)] =
+    [(SLeg.virt 0 1 2, SLeg.virt 1 0 2), (.ph (.init 0), .gin 0 0), (.ph (.init 1), .gin 0 1)] := by decide
+
+open Ptn.Ein in
+/-- non-vacuity of the whole two-site contract: at every moment of a run, for EVERY pair `PairOK`, all local
+tensors `TP`, `TC`, `G` and a new bond of dimension one there are `U`, `V` with a `GlobalLoopContract` (and hence,
+by `tebd_op_loop_value_global`, the network after it is the gate action) -/
+example {R : Type} [CommSemiring R] (cur : Nat → GLeg) (rc : List Rec) (g : Nat) (hinv : RecInv cur rc g)
+    (p c : Nat) (pp : Option Nat) (A B K : List Nat) (hpair : PairOK p c pp A B K) (v : Nat)
+    (TP TC G : Asg Leg → R) (dim : SLeg → Nat) (hd : dim (SLeg.virt p c (v + 3)) = 1) :
+    ∃ U V : Asg SLeg → R, GlobalLoopContract dim cur g (rn_pull (stepGlob cur g p c K (fun _ _ => v)) G) [p, c]
+      (netValue dim ([] ++ [(stepGlob cur g p c K (fun _ _ => v) (Leg.nb c),
+          stepGlob cur g p c K (fun _ _ => v) (Leg.nb p))])
+        [rn_pull (stepGlob cur g p c K (fun _ _ => v)) TP, rn_pull (stepGlob cur g p c K (fun _ _ => v)) TC])
+      (netValue dim ([] ++ [(SLeg.virt p c (v + 3), SLeg.virt c p (v + 3))]) [U, V]) := by
+  obtain ⟨U, V, hUV⟩ := rn_split_exists_step _ (hinv.stepGlob_injective p c K (fun _ _ => v))
+    (gateExpr (mkNode p pp (A ++ c :: B) 1).legs (mkNode c (some p) K 1).legs [(Leg.nb c, Leg.nb p)]
+      (1 + 1) ((physL p 1 ++ physL c 1).zip ((List.range (1 + 1)).map Leg.gin)) TP TC G) dim _ _
+    (stepGlob_ne_newbond cur g p c K p c v) (stepGlob_ne_newbond cur g p c K c p v) hd
+  exact ⟨U, V, GlobalLoopContract.two p c pp A B K hpair _ p c _
+    (Or.inl ⟨rfl, rfl, twoSite_parentFirst 1 1 hpair⟩) TP TC G rfl [] U V [] _ _ (fun _ => False) hUV
+    (by simp) id id id id (fun _ _ => id) (by simp [Expr.pairLegs]) (by simp [Expr.pairLegs])⟩
 
 /-! ### non-vacuity -/
 
